@@ -10,11 +10,12 @@
       [update] / [X] / [Y] / [n_evidence]       -> [update], [run_updates], [n_evidence]
 
     Numbers are exact rationals ([Q]); every binary64 the implementation produced is one.
-    The surrogate (GPy) and the library functions sqrt / normal pdf / cdf / logcdf are ORACLES: the
-    harness records, per query row, the values the real surrogate and scipy returned
+    The surrogate (GPy) and the library functions sqrt / exp / normal pdf, cdf, logpdf, logcdf are
+    ORACLES: the harness records, per query row, the values the real surrogate handed to the
+    implementation (spied) and the values scipy/numpy return at the occurring arguments
     ([gp_oracle]); [oracle_ok] checks inside Coq that the recorded values are mutually consistent
-    (sd*sd ~ var, z ~ (t - mean)/sd) so that the model's arithmetic is tied to the recorded
-    arguments.  The formula of the gradient also exists as a *generated* definition
+    (sd*sd ~ var, z ~ (t - mean)/sd, exp(logpdf - logcdf) ~ pdf/cdf, Mills-ratio bounds in the far
+    tail) so that the model's arithmetic is tied to the recorded arguments.  The formula of the gradient also exists as a *generated* definition
     (Gen/C10_Gradient.v, from the source text); [agree_gen] in Num/GpGen.v evaluates that one. *)
 From Coq Require Import List QArith Qabs Bool Arith ZArith.
 Import ListNotations.
